@@ -289,6 +289,63 @@ struct GsSpec {
     linear: bool,
     layout: u8,
     vals: ValSpec,
+    /// placement family, see `gs_geometry`: 0 = around the anchor; 1..=7 longitude bounds in [-720, 720]
+    /// (exactly +-360, +-720, straddling 360, anywhere, global 0..360); 8..=11 the same for latitude bounds;
+    /// for `linear` grids != 0 means one bound just beyond +-720 (720.03125)
+    #[serde(default)]
+    wide: u8,
+    #[serde(default)]
+    wlon_q: i32,
+    #[serde(default)]
+    wlat_q: i32,
+}
+
+/// Header numbers (lat_n, lat_s, lon_w, lon_e, dlat, dlon) in the file's unit; all are multiples of 1/32 and exact.
+fn gs_geometry(s: &GsSpec) -> (f64, f64, f64, f64, f64, f64) {
+    let (rows, cols) = (s.rows as f64, s.cols as f64);
+    if s.linear && s.wide == 0 {
+        let (lat_n, lon_w, dlat, dlon) = (6.0e6 + s.lat_n_q as f64 * 250.0, 4.0e5 + s.lon_w_q as f64 * 250.0, s.dlat_q as f64 * 125.0, s.dlon_q as f64 * 125.0);
+        return (lat_n, lat_n - (rows - 1.0) * dlat, lon_w, lon_w + (cols - 1.0) * dlon, dlat, dlon);
+    }
+    let dlat = s.dlat_q as f64 / 32.0;
+    let mut dlon = s.dlon_q as f64 / 32.0;
+    if !s.linear && s.wide == 7 {
+        dlon = 360.0 / (cols - 1.0); // 360, 180, 120, 90, 72, 60: a global 0..360 grid
+    }
+    let (ext_lat, ext_lon) = ((rows - 1.0) * dlat, (cols - 1.0) * dlon);
+    // default placement around the anchor (kept inside (-360, 360))
+    let (mut lat_n, mut lon_w) = (s.lat_n_q as f64 / 16.0, s.lon_w_q as f64 / 16.0);
+    let (mut lat_s, mut lon_e) = (lat_n - ext_lat, lon_w + ext_lon);
+    let pin_lon_e = |e: f64| (e - ext_lon, e);
+    let pin_lon_w = |w: f64| (w, w + ext_lon);
+    let pin_lat_n = |n: f64| (n, n - ext_lat);
+    let pin_lat_s = |sv: f64| (sv + ext_lat, sv);
+    if s.linear {
+        // projected grid whose decisive bound is just beyond 720
+        let b = 720.0 + 1.0 / 32.0;
+        match s.wide % 4 {
+            0 => (lat_n, lat_s) = pin_lat_n(b),
+            1 => (lon_w, lon_e) = pin_lon_e(b),
+            2 => (lon_w, lon_e) = pin_lon_w(-b),
+            _ => (lat_n, lat_s) = pin_lat_s(-b),
+        }
+    } else {
+        match s.wide {
+            1 => (lon_w, lon_e) = pin_lon_e(360.0),
+            2 => (lon_w, lon_e) = pin_lon_w(-360.0),
+            3 => (lon_w, lon_e) = pin_lon_e(720.0),
+            4 => (lon_w, lon_e) = pin_lon_w(-720.0),
+            5 => (lon_w, lon_e) = pin_lon_w(360.0 - dlon * (1 + s.wlon_q.rem_euclid((s.cols as i32 - 1).max(1))) as f64),
+            6 => (lon_w, lon_e) = pin_lon_w((s.wlon_q as f64 / 16.0).clamp(-720.0, 720.0 - ext_lon)),
+            7 => (lon_w, lon_e) = (0.0, 360.0),
+            8 => (lat_n, lat_s) = pin_lat_n(360.0),
+            9 => (lat_n, lat_s) = pin_lat_s(-720.0),
+            10 => (lat_n, lat_s) = pin_lat_n(720.0),
+            11 => (lat_n, lat_s) = pin_lat_n((s.wlat_q as f64 / 16.0).clamp(-720.0 + ext_lat, 720.0)),
+            _ => {}
+        }
+    }
+    (lat_n, lat_s, lon_w, lon_e, dlat, dlon)
 }
 
 fn fmt_val(v: f64, layout: u8) -> String {
@@ -303,13 +360,9 @@ fn fmt_val(v: f64, layout: u8) -> String {
 /// (lat, lon) arcsec / geoid metres / (north, east, up) mm/yr. Linear grids (|bound| > 720): untouched.
 fn gs_build(s: &GsSpec) -> (String, MGrid) {
     let (rows, cols, bands) = (s.rows as usize, s.cols as usize, s.bands as usize);
-    let (lat_n, lon_w, dlat, dlon) = if s.linear {
-        (6.0e6 + s.lat_n_q as f64 * 250.0, 4.0e5 + s.lon_w_q as f64 * 250.0, s.dlat_q as f64 * 125.0, s.dlon_q as f64 * 125.0)
-    } else {
-        (s.lat_n_q as f64 / 16.0, s.lon_w_q as f64 / 16.0, s.dlat_q as f64 / 32.0, s.dlon_q as f64 / 32.0)
-    };
-    let lat_s = lat_n - (rows - 1) as f64 * dlat;
-    let lon_e = lon_w + (cols - 1) as f64 * dlon;
+    let (lat_n, lat_s, lon_w, lon_e, dlat, dlon) = gs_geometry(s);
+    // Rumination 002, gridshift, Units: linear iff any boundary is numerically larger than 2 x 360
+    let linear = [lat_n, lat_s, lon_w, lon_e].iter().any(|b| b.abs() > 720.0);
     let layout = s.layout;
     // node tokens, row by row from the north, bands interleaved
     let mut tokens: Vec<Vec<String>> = vec![];
@@ -365,7 +418,7 @@ fn gs_build(s: &GsSpec) -> (String, MGrid) {
     for row in &tokens {
         for node in row.chunks(bands) {
             let f: Vec<f64> = node.iter().map(|t| t.parse::<f64>().unwrap() as f32 as f64).collect();
-            if s.linear || bands == 1 {
+            if linear || bands == 1 {
                 v.extend(f);
             } else if bands == 2 {
                 v.push((f[1] / 3600.0).to_radians()); // file: lat, lon arcsec -> internal lon, lat radians
@@ -377,13 +430,28 @@ fn gs_build(s: &GsSpec) -> (String, MGrid) {
             }
         }
     }
-    let cv = |x: f64| if s.linear { x } else { x.to_radians() };
+    let cv = |x: f64| if linear { x } else { x.to_radians() };
     let m = MGrid { lat_n: cv(lat_n), lat_s: cv(lat_s), lon_w: cv(lon_w), lon_e: cv(lon_e), dlat: cv(dlat), dlon: cv(dlon), rows, cols, bands, v };
     (t, m)
 }
 
-fn gs_spec(anchor: (i32, i32), bands: u8, linear: bool) -> impl Strategy<Value = GsSpec> {
+fn placement_label(s: &GsSpec) -> String {
+    const A: [&str; 12] = ["anchor", "lon_e=360", "lon_w=-360", "lon_e=720", "lon_w=-720", "lon-straddles-360", "lon-anywhere-in[-720,720]", "global-0..360", "lat_n=360", "lat_s=-720", "lat_n=720", "lat-anywhere-in[-720,720]"];
+    if s.linear {
+        format!("placement=projected/{}", if s.wide == 0 { "far-beyond-720" } else { ["lat_n=720.03125", "lon_e=720.03125", "lon_w=-720.03125", "lat_s=-720.03125"][(s.wide % 4) as usize] })
+    } else {
+        format!("placement=angular/{}", A[(s.wide as usize).min(11)])
+    }
+}
+type Wide = (u8, i32, i32);
+fn wide_sel() -> impl Strategy<Value = Wide> {
+    (prop_oneof![8 => Just(0u8), 7 => 1u8..=7, 3 => 8u8..=11], -720i32 * 16..=720 * 16, -700i32 * 16..=720 * 16)
+}
+fn gs_spec(anchor: (i32, i32), bands: u8, linear: bool, wide: Wide) -> impl Strategy<Value = GsSpec> {
     (-40i32..40, -60i32..40, 1u16..=32, 1u16..=32, 2u8..=7, 2u8..=7, 0u8..8, valspec()).prop_map(move |(a, b, dlat_q, dlon_q, rows, cols, layout, vals)| GsSpec {
+        wide: wide.0,
+        wlon_q: wide.1 + b,
+        wlat_q: wide.2 + a,
         lat_n_q: anchor.0 + a,
         lon_w_q: anchor.1 + b,
         dlat_q,
@@ -1181,6 +1249,7 @@ fn check_gravsoft(c: &GsCase, rec: &mut Rec) -> CaseResult {
     let bands = m.bands;
     vensure!(grid.bands() == bands, "gravsoft-band-count", "file with {bands} band(s) decoded as {} band(s)\n{text}", grid.bands());
     let spec_h = hash_bytes(text.as_bytes());
+    rec.class(&placement_label(&c.g));
     let mut fails = Fails::default();
     let ctx = |q: &Q, x: f64, y: f64| format!("grid spec {}\nheader(internal) lat_n={} lat_s={} lon_w={} lon_e={} dlat={} dlon={} rows={} cols={} bands={}\nquery class {} at (x={x:?}, y={y:?})", json(&c.g), m.lat_n, m.lat_s, m.lon_w, m.lon_e, m.dlat, m.dlon, m.rows, m.cols, bands, CLASS_NAMES[q.class as usize]);
     for q in &c.qs {
@@ -1276,8 +1345,8 @@ fn check_gravsoft(c: &GsCase, rec: &mut Rec) -> CaseResult {
 }
 
 fn gs_case() -> impl Strategy<Value = GsCase> {
-    (anchor(), 1u8..=3, prop::bool::weighted(0.2))
-        .prop_flat_map(|(a, bands, linear)| (gs_spec(a, bands, linear), prop_oneof![0.01f64..0.5, 0.5f64..3.0], prop::collection::vec(q_strategy(), 8..=24)))
+    (anchor(), 1u8..=3, prop::bool::weighted(0.2), wide_sel())
+        .prop_flat_map(|(a, bands, linear, wide)| (gs_spec(a, bands, linear, wide), prop_oneof![0.01f64..0.5, 0.5f64..3.0], prop::collection::vec(q_strategy(), 8..=24)))
         .prop_map(|(g, margin, qs)| GsCase { g, margin: F(margin), qs })
 }
 
@@ -1445,6 +1514,9 @@ fn check_list(c: &ListCase, rec: &mut Rec) -> CaseResult {
     let bands = models[0].bands();
     let case_h = built.iter().fold(0u64, |h, b| mix(h ^ hash_bytes(&b.bytes)));
     rec.class(&format!("list-length={}", built.len()));
+    if let Some(Item::Gs(g)) = c.items.iter().find(|i| matches!(i, Item::Gs(_))) {
+        rec.class(&placement_label(g));
+    }
     let mut fails = Fails::default();
     let mut excluded = 0u64;
     for q in &c.qs {
@@ -1515,17 +1587,17 @@ fn check_list(c: &ListCase, rec: &mut Rec) -> CaseResult {
 }
 
 /// A list of 1..4 mutually overlapping grids with the same band count (2-band lists mix Gravsoft and NTv2).
-fn items_strategy(bands: u8, linear: bool, allow_nt: bool, max: usize) -> impl Strategy<Value = Vec<Item>> {
+fn items_strategy(bands: u8, linear: bool, allow_nt: bool, max: usize, wide: Wide) -> impl Strategy<Value = Vec<Item>> {
     anchor().prop_flat_map(move |a| {
-        let gs = gs_spec(a, bands, linear).prop_map(Item::Gs);
+        let gs = gs_spec(a, bands, linear, wide).prop_map(Item::Gs);
         let one = if allow_nt && bands == 2 && !linear { prop_oneof![3 => gs, 2 => nt_spec(a).prop_map(Item::Nt)].boxed() } else { gs.boxed() };
         prop::collection::vec(one, 1..=max)
     })
 }
 
 fn list_case() -> impl Strategy<Value = ListCase> {
-    (prop_oneof![2 => Just(1u8), 5 => Just(2u8), 2 => Just(3u8)], prop::bool::weighted(0.1))
-        .prop_flat_map(|(bands, linear)| (items_strategy(bands, linear, true, 4), prop::bool::weighted(0.3), prop::collection::vec(q_strategy(), 8..=24)))
+    (prop_oneof![2 => Just(1u8), 5 => Just(2u8), 2 => Just(3u8)], prop::bool::weighted(0.1), wide_sel())
+        .prop_flat_map(|(bands, linear, wide)| (items_strategy(bands, linear, true, 4, wide), prop::bool::weighted(0.3), prop::collection::vec(q_strategy(), 8..=24)))
         .prop_map(|(items, null, qs)| ListCase { items, null, qs })
 }
 
@@ -1682,6 +1754,9 @@ fn check_op(c: &OpCase, backend: Backend, rec: &mut Rec) -> CaseResult {
         Ok(r) => r,
     };
     rec.class(&format!("{opname}/{}", if inverse { "inv" } else { "fwd" }));
+    if let Some(Item::Gs(g)) = c.items.iter().find(|i| matches!(i, Item::Gs(_))) {
+        rec.class(&format!("{opname}:{}", placement_label(g)));
+    }
     if n_missing > 0 {
         rec.class("list-has-missing-grid");
     }
@@ -1915,9 +1990,16 @@ fn op_case() -> impl Strategy<Value = OpCase> {
         4 => Just((1u8, 3u8, false)),
         2 => Just((2u8, 1u8, false)),
     ];
-    kind.prop_flat_map(|(op, bands, linear)| {
+    (kind, wide_sel()).prop_flat_map(|((op, bands, linear), wide)| {
+        // deformation looks the grid up at a true geographic position (lon in (-pi, pi], |lat| <= pi/2): anchor placement only;
+        // deflection needs a true latitude: longitude families only; gridshift: every family
+        let wide = match op {
+            1 => (0, wide.1, wide.2),
+            2 if wide.0 >= 8 || linear => (0, wide.1, wide.2),
+            _ => wide,
+        };
         (
-            items_strategy(bands, linear, true, 3).prop_map(|mut items| {
+            items_strategy(bands, linear, true, 3, wide).prop_map(|mut items| {
                 // realistic shift sizes for the 2-band inverse: a few arcsec (angular) or metres (linear)
                 for it in items.iter_mut() {
                     match it {
@@ -2134,7 +2216,7 @@ fn main() {
 
     run.assume("Bilinear reference = f64 interpolation of the node values as stored (f32), relative tolerance 2e-6 of the largest corner value: covers the library's f32 unit conversion (arcsec->rad, mm->m); a swapped weight, row or column gives errors of the order of the corner differences (node values are random or affine in (row, column) with distinct non-zero coefficients, never value = coordinate).");
     run.assume("Grid::contains doc comment: 'on the border qualifies as within' is asserted only for coordinates bit-equal to a header bound (header degrees .to_radians()); any other point closer than 1e-9 cell to a containment or margin border is not asserted either way (the acceptable outcomes are the union); scan order north->south, west->east only (BaseGrid::at comment).");
-    run.assume("Gravsoft conventions from src/grid/mod.rs comments and Rumination 002 'gridshift' Units: header lat_s lat_n lon_w lon_e dlat dlon in degrees; 2 bands = (lat, lon) arcsec -> internal (lon, lat) rad; 3 bands = (north, east, up) mm/yr -> (east, north, up) m/yr; 1 band = metres; any |bound| > 720: linear grid, header and values untouched (band order of linear grids = file order, as 'kept unchanged').");
+    run.assume("Gravsoft conventions from src/grid/mod.rs comments and Rumination 002 'gridshift' Units: header lat_s lat_n lon_w lon_e dlat dlon in degrees; 2 bands = (lat, lon) arcsec -> internal (lon, lat) rad; 3 bands = (north, east, up) mm/yr -> (east, north, up) m/yr; 1 band = metres; any |bound| > 720 ('larger than 2x360'): linear grid, header and values untouched (band order of linear grids = file order, as 'kept unchanged'); bounds of exactly +-720 or anywhere inside are angular; queries use the longitude convention of the grid header (the library does not wrap).");
     run.assume("NTv2 conventions (parser comments, NTv2 spec, checked in selftest against ntv2_cvt values quoted in the repository test and by re-encoding the three shipped .gsb files byte for byte): bounds/increments in arcsec, longitudes and longitude shifts positive WEST, nodes from the south-east corner westwards then northwards, record = lat shift, lon shift, 2 accuracies; delivered value = (lon shift east-positive, lat shift) rad.");
     run.assume("NTv2 owner = deepest sub-grid containing the point; not asserted closer than 1e-4 cell to any sub-grid border (DESIGN S), there the result must equal the interpolation in one of the sub-grids touching the point (continuity only) and must be Some when the point is strictly inside a root grid. Outside all roots: any root within the margin. Sibling sub-grids never overlap (NTv2 spec); generated trees obey that.");
     run.assume("grids_at doc comment: slice order, first hit with margin 0, then first hit with margin 0.5, else origin if use_null_grid else None.");
@@ -2145,7 +2227,7 @@ fn main() {
     let n = run.scale(12_000, 300_000);
     run.section(
         "gravsoft-at",
-        "random Gravsoft files (2..7 x 2..7 nodes, 1-3 bands, angular or linear, 8 text layouts) decoded with BaseGrid::gravsoft; 8..24 queries per grid (node, cell interior, cell border, exact grid border, margin, just outside, far, +-1e-3..1e-13 cell from a border) x margins {0, 0.5, random}; Grid::at/contains against the bilinear reference; non-trivial = strictly inside a cell with four distinct corner values, or in the half-cell margin",
+        "random Gravsoft files (2..7 x 2..7 nodes, 1-3 bands, 8 text layouts; angular grids around a random anchor and with header bounds anywhere in [-720, 720] incl. exactly +-360, +-720, straddling 360 and global 0..360; projected grids far beyond and just beyond (720.03125) the 2x360 limit) decoded with BaseGrid::gravsoft; 8..24 queries per grid (node, cell interior, cell border, exact grid border, margin, just outside, far, +-1e-3..1e-13 cell from a border) x margins {0, 0.5, random}; Grid::at/contains against the bilinear reference; non-trivial = strictly inside a cell with four distinct corner values, or in the half-cell margin",
         n,
         gs_case,
         check_gravsoft,
